@@ -91,6 +91,10 @@ func (g *gen) query() Query {
 		}
 		g.relationFamily()
 	case 5:
+		if !g.classic && g.chance(2) {
+			g.parentDirFamily()
+			break
+		}
 		g.nodeTypeFamily()
 	case 4:
 		if len(g.refAttrs) == 0 || g.classic {
@@ -127,6 +131,52 @@ func (g *gen) query() Query {
 		q.Limit = 1 + g.pick(5)
 	}
 	return q
+}
+
+// parentDirFamily: several DIFFERENT parentDir constraints in one tree (on files and on directories, side by side
+// under a logical operator, or nested: parent of the parent), so that one directory is judged as a parent by different
+// constraints within one search.
+func (g *gen) parentDirFamily() {
+	simpleDir := func() int {
+		j := g.alloc()
+		n := Node{K: "dir"}
+		switch g.pick(4) {
+		case 0:
+			n.SP = 1 + g.pick(len(g.wf.SPreds))
+		case 1:
+			n.Lo = 1 + g.pick(3)
+		case 2:
+			n.Hi = 1 + g.pick(3)
+		}
+		g.tr[j-1] = n
+		return j
+	}
+	child := func(parent int) int {
+		j := g.alloc()
+		n := Node{K: []string{"file", "dir"}[g.pick(2)], A: parent}
+		g.tr[j-1] = n
+		return j
+	}
+	i := g.alloc()
+	n := Node{K: []string{"and", "or", "or", "xor"}[g.pick(4)]}
+	if g.chance(3) {
+		// nested: the parent's parent, beside a plain parent constraint
+		n.A = child(func() int {
+			j := g.alloc()
+			g.tr[j-1] = Node{K: "dir", A: simpleDir()}
+			return j
+		}())
+	} else {
+		n.A = child(simpleDir())
+	}
+	if g.chance(3) {
+		j := g.alloc()
+		g.tr[j-1] = Node{K: "not", A: child(simpleDir())}
+		n.B = j
+	} else {
+		n.B = child(simpleDir())
+	}
+	g.tr[i-1] = n
 }
 
 // inSetFamily: several valueInSet sub-queries in one tree over the same reference attribute, side by side under a
